@@ -27,8 +27,14 @@ build() { # $1 = race|norace
   BIN="$out"
 }
 
+build_fuzz() { # coverage-instrumented test binary of harness/fuzzq (C06 stage 4); sets FZBIN
+  local tag; tag=$(echo "$REPO" | tr '/' '_')
+  FZBIN="$WORK/bin/fuzzq$tag.test"
+  ( cd "$VERIF/harness" && go test -tags verif -modfile="$WORK/mod/go.$tag.mod" -c -fuzz FuzzStatement -o "$FZBIN" ./fuzzq ) 2> "${1:-$WORK/build.fuzz.log}"
+}
+
 if [ "${1:-}" = "--build-only" ]; then
-  ID=build; build norace; build race; echo "harness built: $WORK/bin"; exit 0
+  ID=build; build norace; build race; build_fuzz || echo "note: fuzz binary did not build (see $WORK/build.fuzz.log)"; echo "harness built: $WORK/bin"; exit 0
 fi
 
 ID=${1:?usage: run.sh <ID> quick|thorough [--replay file]}
@@ -46,8 +52,7 @@ if [ "$ID" = C06 ] && [ "${VERIF_NO_FUZZ:-0}" != 1 ]; then
   # The budget is a number of executions, not a time; the wall-clock limit is only a watchdog.
   FZ="$WORK/C06-$TIER${VERIF_WORK_SUFFIX:-}.fuzz"
   rm -rf "$FZ"; mkdir -p "$FZ"
-  FZBIN="$WORK/bin/fuzzq$(echo "$REPO" | tr '/' '_').test"
-  if ( cd "$VERIF/harness" && go test -tags verif -modfile="$WORK/mod/go.$(echo "$REPO" | tr '/' '_').mod" -c -fuzz FuzzStatement -o "$FZBIN" ./fuzzq ) 2> "$FZ/build.log"; then
+  if build_fuzz "$FZ/build.log"; then
     execs=300000; limit=600
     [ "$TIER" = thorough ] && { execs=30000000; limit=3600; }
     execs=${VERIF_FUZZ_EXECS:-$execs}
